@@ -258,18 +258,18 @@ def _create_dense_precision(
                 n_features_per_vertex::, n_features_per_vertex::
             ]
             # v1, v2
-            precision[v1_from:v1_to, v2_from:v2_to] = covmat[
+            precision[v1_from:v1_to, v2_from:v2_to] += covmat[
                 :n_features_per_vertex, n_features_per_vertex::
             ]
             # v2, v1
-            precision[v2_from:v2_to, v1_from:v1_to] = covmat[
+            precision[v2_from:v2_to, v1_from:v1_to] += covmat[
                 n_features_per_vertex::, :n_features_per_vertex
             ]
         elif mode == "subtraction":
             # v1, v2
-            precision[v1_from:v1_to, v2_from:v2_to] = -covmat
+            precision[v1_from:v1_to, v2_from:v2_to] -= covmat
             # v2, v1
-            precision[v2_from:v2_to, v1_from:v1_to] = -covmat
+            precision[v2_from:v2_to, v1_from:v1_to] -= covmat
             # v1, v1
             precision[v1_from:v1_to, v1_from:v1_to] += covmat
             # v2, v2
@@ -640,18 +640,18 @@ def _increment_dense_precision(
                 n_features_per_vertex::, n_features_per_vertex::
             ]
             # v1, v2
-            precision[v1_from:v1_to, v2_from:v2_to] = covmat[
+            precision[v1_from:v1_to, v2_from:v2_to] += covmat[
                 :n_features_per_vertex, n_features_per_vertex::
             ]
             # v2, v1
-            precision[v2_from:v2_to, v1_from:v1_to] = covmat[
+            precision[v2_from:v2_to, v1_from:v1_to] += covmat[
                 n_features_per_vertex::, :n_features_per_vertex
             ]
         elif mode == "subtraction":
             # v1, v2
-            precision[v1_from:v1_to, v2_from:v2_to] = -covmat
+            precision[v1_from:v1_to, v2_from:v2_to] -= covmat
             # v2, v1
-            precision[v2_from:v2_to, v1_from:v1_to] = -covmat
+            precision[v2_from:v2_to, v1_from:v1_to] -= covmat
             # v1, v1
             precision[v1_from:v1_to, v1_from:v1_to] += covmat
             # v2, v2
